@@ -19,3 +19,11 @@ chk("C03", "In-process: programs mixing every command family with frame-breaking
     "the reply stream must decode as v_1, bulk(m_1), v_2, ...: a missing, doubled or unframed reply shifts the markers at a known index.",
     "Pub/Sub pushes are excluded (SUBSCRIBE only on dedicated connections, C19); blocking pops are exercised in-process only; error texts are free.",
     "runtime monitoring of reply framing with an independent strict RESP decoder and sync markers")
+chk("C06", "Rounds phase-locked to the wall clock on the real clock, in-process and over TCP against the real binary: one small program per key (value type x way of attaching the deadline x ttl x follow-up that keeps/replaces/removes it) with deadlines attached at "
+    "fraction ~0.75 of a second, exactly one post-deadline probe per key by one command at fraction 0.10/0.45 of the deadline second or the next, pre-deadline probes at 0.9 of the last live second, and a control group whose deadline was removed. "
+    "The oracle is the reference model evaluated on the recorded [before, after] unix-second bracket of every call; the stored deadline (dump hook) must lie in the model's interval.",
+    "One-second granularity: probes whose bracket contains the deadline are counted as ambiguous and never decide anything; the floor demands >= 50% decisive probes and >= 200 decisive post-deadline probes.",
+    "runtime monitoring on a real clock with an interval-valued reference oracle over recorded call brackets")
+chk("C20", "Against the real server binary over TCP: SELECT argument sweep (18 spellings, databases in {1,2,16}), each followed by a probe write that is located from a fresh connection; concurrent histories of 2-8 connections hopping between databases and "
+    "writing values tagged (connection, database, sequence) to the same key name in every database, so that a read from, or a write into, a database the connection did not select is identified exactly. Thorough adds the -race build of the server.",
+    "'+1', '01' and space-padded indexes are an open corner.", "runtime monitoring of tagged-value histories over concurrent TCP connections")
